@@ -1,1 +1,36 @@
-/-! Property theorems for C01 (stub: none yet). -/
+import TxdbusModel.Proofs.Wire.SpecRoundtrip
+/-!
+Property C01 - encoding then decoding any conforming value returns the same value.
+
+`Spec.decode_encode`: the reference codec of Wire/Spec.lean round-trips, for EVERY alignment table
+(positivity of the entries is not even needed), both byte orders, every list of types without empty
+structs (`allWF`; weaker than signature validity), every list of values the encoder accepts (i.e. every
+conforming value: ranges, string-like values without NUL, lengths within the wire limits, variants
+holding a single complete type), every offset, arbitrary bytes before and after.  The decoder reports
+consuming exactly the bytes the encoder produced.
+-/
+namespace Txdbus
+
+theorem Spec.decode_encode (A : AlignTable) (e : Endian) (ts : List Ty) (vs : List Val) (off : Nat)
+    (bs pre suf : Bytes) (hts : allWF ts = true) (hpre : pre.length = off)
+    (henc : Spec.encodeAll A e ts vs off = some bs) :
+    Spec.decode A e ts (pre ++ bs ++ suf) off = some (vs, bs.length) := by
+  unfold Spec.decode
+  apply Spec.decodeAll_encodeAll A e ts vs off bs pre suf _ hts hpre henc
+  have h := Spec.vdepth_fields A e vs ts off bs henc
+  simp only [List.length_append]
+  omega
+
+/-- The hypotheses are satisfiable by a non-trivial instance: a byte, an array of INT64 at an odd
+offset, and a variant holding a struct (big endian, offset 3, with surrounding bytes). -/
+example :
+    let ts : List Ty := [.basic .y, .array (.basic .x), .variant]
+    let vs : List Val := [.int 7, .array [.int 1, .int (-1)],
+      .variant (.struct [.basic .s, .basic .q]) (.struct [.str [104, 105], .int 513])]
+    allWF ts = true ∧
+    (Spec.encodeAll Spec.alignTable .big ts vs 3).isSome = true := by
+  decide
+
+end Txdbus
+
+#print axioms Txdbus.Spec.decode_encode
